@@ -84,3 +84,21 @@ def group_orbits(ck, n, reps=None, dump=True, workers=8):
     res = tlc.run_tlc("LCGroups", c, workers=workers, heap="12g", timeout=7200)
     js = res.json_lines() if dump else []
     return res, [x for x in js if x["k"] == "S"]
+
+
+def pipeline_model(ck, L, configs):
+    """Design-level model of the library's algorithm with the real tables (Pipeline.tla). Returns list of violated invariants."""
+    from . import core
+    files = {"Exported.tla": core.exported_module(L)}
+    jobs = []
+    for (n, conn) in configs:
+        c = tlc.cfg(spec="Spec", constants={"N": str(n), "Conn": tlc.tla_str(conn)}, invariants=["Contract", "NoStuck", "CancelSound"], view="View")
+        jobs.append((("Pipeline", c), dict(files=files, workers=5, heap="4g", timeout=3600)))
+    bad = []
+    for (n, conn), res in zip(configs, tlc.run_many(jobs, parallel=3)):
+        tlc.require_ok(res, f"Pipeline {n}-{conn}")
+        ck.add_tlc(f"Pipeline(N={n},{conn})", res, note="every signed state x every sound layer: Contract (state, coupling, cost, depth), NoStuck, CancelSound"
+                   + (f"; VIOLATED: {res.violated_invariant}" if res.violated_invariant else ""))
+        if res.violated_invariant:
+            bad.append(f"{n}-{conn}:{res.violated_invariant}")
+    return bad
